@@ -4,16 +4,21 @@ from evalutil import *
 
 ID = "C06"
 LEVEL = "proof"
-MODULES = ["H3Proofs.Props.C06", "H3Proofs.Props.C06Spec", "H3Proofs.Props.C06H3"]
+MODULES = ["H3Proofs.Props.C06", "H3Proofs.Props.C06Spec", "H3Proofs.Props.C06H3", "H3Proofs.Props.C06Hash", "H3Proofs.Props.C06Refine", "H3Proofs.Props.C06Final"]
 THEOREMS = "auto"
 ASSUMPTIONS = ["layout-faithful model of compactCells (hash table with parent % n probing, reserved-bit counters, "
                "exact output slots) and uncompactCells tied to the code by exact array correspondence"]
-NOT_PROVED = ["compactImpl_refines_spec (the hash-table implementation computes the set-level compaction `compactSpec`) "
-              "is exercised by correspondence (op compactS) + evaluator, not a theorem; the set-level theorems of C06Spec "
-              "are proved for an abstract forest and instantiated (C06H3) with the valid cells of the model, its axioms "
-              "being consequences of the C04 theorems; that the counting formulation `compactSpec` (executable) equals the "
-              "quantified `Compact` is not proved"]
-EXPLANATION = ("bounds/error theorems on the model; exact array correspondence of compactCells; the evaluator checks "
+ASSUMPTIONS.append("the layout-faithful compactCells model (hash table with parent % n probing, reserved-bit counters, "
+                   "pentagon adjustment, rounds) is PROVED to compute the canonical compaction whenever it returns successfully "
+                   "(C06Final.compactCells_canonical: output = Compact h3Forest of the input set; lossless; every input cell under "
+                   "exactly one output cell; no complete sibling family; order independent) - partial correctness")
+NOT_PROVED = ["that compactCells never takes an error branch (E_FAILED probe-limit checks, E_DUPLICATE_INPUT) on duplicate-free "
+              "valid same-resolution input: total correctness needs a counting (pigeonhole) argument on the table occupancy; "
+              "exercised by the correspondence runs (the C function and the model must both succeed)",
+              "uncompactCells = concatenation of the children lists is by definition of the model (children theorems of C04 apply)"]
+EXPLANATION = ("refinement theorem: the layout-faithful hash-table model computes the canonical compaction whenever it succeeds "
+               "(all sets, all orders, all allocation schedules), set-level theorems (lossless, antichain, no full family), "
+               "bounds/error theorems; exact array correspondence of compactCells; the evaluator checks "
                "round trip, antichain, no complete sibling family, validity, size and order independence on the real "
                "library with a python digit-tree oracle")
 
